@@ -74,6 +74,8 @@ type world struct {
 	idx    map[string]int   // bech32 -> index
 	tok    map[string]string
 	hashes map[string]string // lower-case full hash -> token (8 chars)
+	codes  map[string]int64
+	htok   map[string]string
 }
 
 func sha(s string) string {
@@ -81,6 +83,9 @@ func sha(s string) string {
 	return hex.EncodeToString(h[:])
 }
 
+// code: the integer the model uses for a string that is only compared or decoded as an address:
+// "" -> -1, the bech32 string of account i -> i, its upper-case spelling (decodes to the same address) -> 100+i,
+// any other string -> a negative code of its own (-2 for the usual garbage)
 func (w *world) code(s string) int64 {
 	if s == "" {
 		return -1
@@ -88,25 +93,51 @@ func (w *world) code(s string) int64 {
 	if i, ok := w.idx[s]; ok {
 		return int64(i)
 	}
-	return -2
+	if i, ok := w.idx[strings.ToLower(s)]; ok && s == strings.ToUpper(s) {
+		return int64(100 + i)
+	}
+	if c, ok := w.codes[s]; ok {
+		return c
+	}
+	c := int64(-2 - len(w.codes))
+	w.codes[s] = c
+	return c
 }
+
+// token: a short printable name for a string that is only compared (keys, digests, passwords, limit
+// strings); injective: every distinct string gets its own token
 func (w *world) token(s string) string {
 	if t, ok := w.tok[s]; ok {
 		return t
 	}
-	if len(s) > 12 {
-		return "?" + s[:8]
+	t := s
+	if len(s) > 10 || strings.ContainsAny(s, "\"\\") || s != strings.TrimSpace(s) {
+		t = fmt.Sprintf("~%d", len(w.tok))
 	}
-	return s
-}
-func (w *world) hashTok(s string) string {
-	if len(s) >= 8 {
-		if _, ok := w.hashes[strings.ToLower(s)]; ok {
-			return s[:8]
+	for _, u := range w.tok {
+		if u == t {
+			t = fmt.Sprintf("~%d", len(w.tok))
 		}
-		return s[:8] + "#"
 	}
-	return s
+	w.tok[s] = t
+	return t
+}
+
+// hashTok: the name of a hash string; spellings of a known transaction hash keep their first 8 characters
+// (the model lower-cases them as the code does); any other string gets a name no lower-casing maps to a hash
+func (w *world) hashTok(s string) string {
+	if _, ok := w.hashes[strings.ToLower(s)]; ok && len(s) >= 8 {
+		return s[:8]
+	}
+	if s == "" {
+		return ""
+	}
+	if t, ok := w.htok[s]; ok {
+		return t
+	}
+	t := fmt.Sprintf("#%d", len(w.htok))
+	w.htok[s] = t
+	return t
 }
 
 func optS(ok bool, s string) string { return hx.Opt(ok, s) }
@@ -128,7 +159,7 @@ func (w *world) amap(m map[string]bool) string {
 	return hx.List(xs)
 }
 
-var denomCode = map[string]int64{"ukex": 0, "uusd": 1, "uzzz": 2}
+var denomCode = map[string]int64{"ukex": 0, "uusd": 1, "uzzz": 2, "uabc": 3}
 
 func (w *world) observe(ctx sdk.Context) snapshot {
 	var s snapshot
@@ -512,6 +543,28 @@ type hist struct {
 	rotated map[int]bool
 }
 
+// corner: the same field in its corners: empty, one character, very long, another case, padded with white space
+func corner(g *hx.Rng, usual string) string {
+	switch g.Intn(7) {
+	case 0:
+		return ""
+	case 1:
+		return "x"
+	case 2:
+		return strings.Repeat("a", 300)
+	case 3:
+		if strings.ToUpper(usual) != usual {
+			return strings.ToUpper(usual)
+		}
+		return strings.ToLower(usual)
+	case 4:
+		return " " + usual
+	case 5:
+		return usual + " "
+	}
+	return usual
+}
+
 func secret(i int) string { return fmt.Sprintf("secret-%d", i) }
 func pword(i int) string  { return fmt.Sprintf("pw-%d", i) }
 
@@ -596,7 +649,14 @@ func (h *hist) keyed(o op, tgt string, right bool, nextAddr string) *op {
 	}
 	h.nsec++
 	j := h.nsec % 12
-	res := h.do(o, kp{Old: old, New: sha(secret(j)), Next: nextAddr, Tgt: tgt})
+	nk := sha(secret(j))
+	if h.r != nil && h.r.Chance(6) {
+		old = corner(h.r, old)
+	}
+	if h.r != nil && h.r.Chance(4) {
+		nk, j = corner(h.r, nk), -1
+	}
+	res := h.do(o, kp{Old: old, New: nk, Next: nextAddr, Tgt: tgt})
 	if res.Outcome == "ok" && o.Kind != "disable_custody" && o.Kind != "drop_custody" {
 		ka := o.Signer
 		if tgt != "" && o.Kind != "create_custody" {
@@ -620,10 +680,18 @@ func (h *hist) sendc(s, to int, amt []cn, pwi int, rawPw bool, rew []cn) *op {
 	if rawPw {
 		pw = pword(pwi)
 	}
+	if h.r != nil && h.r.Chance(35) {
+		pw = corner(h.r, pw)
+	}
+	return h.sendp(s, to, amt, pw, rew)
+}
+
+// sendp: custody send with the password string as given
+func (h *hist) sendp(s, to int, amt []cn, pw string, rew []cn) *op {
 	o := h.do(op{Kind: "custody_send", Signer: s, To: to, Amt: amt, Pw: pw, Rew: rew}, kp{})
 	h.sends = append(h.sends, o.Hash)
 	h.sendBy = append(h.sendBy, s)
-	h.pws = append(h.pws, pword(pwi))
+	h.pws = append(h.pws, pw)
 	return o
 }
 func (h *hist) approve(f, t int, hash string) *op {
@@ -991,7 +1059,45 @@ func directed(newHist func(label string) *hist, finish func(*hist), vr variant) 
 		}
 		finish(h)
 	}
+	// ---- every corner of the password field of the request, with the account's password switch on and off:
+	// the approvals alone must never pay out while the switch is on
+	for _, pwd := range []bool{true, false} {
+		for ci, pw := range []string{"", "x", pword(1), strings.Repeat("a", 300), "PW-1", " pw-1"} {
+			h := newHist(fmt.Sprintf("pwfield/%v/%d", pwd, ci))
+			h.guard(V, 100, pwd, false, false, []int{2, 3}, nil, -1)
+			x := h.sendp(V, 5, uk(1000), pw, uk(400)).Hash
+			h.approve(2, V, x)
+			h.approve(3, V, x)
+			h.confirm(4, V, x, "pw-1")
+			h.confirm(4, V, x, pw)
+			h.approve(3, V, x)
+			finish(h)
+		}
+	}
+	// ---- every corner of the hash field and of the key fields
+	for ci := 0; ci < 6; ci++ {
+		h := newHist(fmt.Sprintf("fields/%d", ci))
+		h.guard(V, 100, false, false, false, []int{2, 3}, nil, -1)
+		x := h.send(V, 5, 1000, 1, false, []int64{400}).Hash
+		hs := []string{"", "x", strings.Repeat("f", 300), " " + x, x + " ", strings.ToUpper(x)}[ci]
+		h.approve(2, V, hs)
+		h.decline(3, V, hs)
+		h.confirm(V, V, hs, "")
+		h.do(op{Kind: "add_whitelist", Signer: V, Adds: []int{4}}, kp{Old: []string{"", "x", strings.Repeat("k", 300), " " + secret(h.sec[V]), strings.ToUpper(secret(h.sec[V])), secret(h.sec[V])}[ci], New: []string{"", "x", strings.Repeat("n", 300), " k", "K", sha(secret(7))}[ci]})
+		h.do(op{Kind: "drop_whitelist", Signer: 4}, kp{Old: "", New: "", Tgt: []string{strings.ToUpper(h.w.addrs[V].String()), " " + h.w.addrs[V].String(), "x", strings.Repeat("t", 300), h.w.addrs[V].String() + " ", strings.ToUpper(h.w.addrs[V].String())}[ci]})
+		h.bank("bank_send", V, 5, 10)
+		finish(h)
+	}
 	// ---- the password path: wrong, right, replayed, by strangers, before and after the approvals
+	{ // the custody record is dropped by a stranger (no key is asked for) while a transfer waits for its password
+		h := newHist("password/requirement_dropped")
+		h.guard(V, 100, true, false, false, []int{2, 3}, nil, -1)
+		x := h.send(V, 5, 1000, 1, true, []int64{400}).Hash
+		h.approve(2, V, x)
+		h.keyed(op{Kind: "drop_custody", Signer: 4}, h.w.addrs[V].String(), false, "")
+		h.approve(3, V, x)
+		finish(h)
+	}
 	for sc := 0; sc < 6; sc++ {
 		h := newHist(fmt.Sprintf("password/%d", sc))
 		cs := []int{2}
@@ -1033,9 +1139,16 @@ func directed(newHist func(label string) *hist, finish func(*hist), vr variant) 
 		finish(h)
 	}
 	// ---- address rotation by x/recovery: the custody records and the funds move to a fresh address
-	for sc := 0; sc < 8; sc++ {
+	for sc := 0; sc < 9; sc++ {
 		h := newHist(fmt.Sprintf("rotation/%d", sc))
 		switch sc {
+		case 8: // after the rotation a stranger drops the custody record of the new address while a transfer waits for its password
+			h.guard(V, 100, true, false, false, []int{2, 3}, nil, -1)
+			h.rotate(V, 6, true)
+			x := h.send(6, 5, 1000, 1, true, []int64{400}).Hash
+			h.approve(2, 6, x)
+			h.keyed(op{Kind: "drop_custody", Signer: 4}, h.w.addrs[6].String(), false, "")
+			h.approve(3, 6, x)
 		case 0: // a guarded account without pending transfer; the new address is guarded as the old one was
 			h.guard(V, 100, false, true, false, []int{2, 3}, []int{5}, 1000)
 			h.rotate(V, 6, false)
@@ -1333,6 +1446,8 @@ func random(h *hist) {
 		x := h.sends[k]
 		if g.Chance(25) {
 			x = upperVariant(x)
+		} else if g.Chance(12) {
+			x = corner(g, x)
 		}
 		t := h.sendBy[k]
 		if g.Chance(3) {
@@ -1397,6 +1512,8 @@ func random(h *hist) {
 			pw := "wrong-pw"
 			if g.Chance(55) {
 				pw = h.pws[len(h.pws)-1]
+			} else if g.Chance(50) {
+				pw = corner(g, h.pws[len(h.pws)-1])
 			}
 			s := t
 			if g.Chance(50) {
@@ -1426,7 +1543,9 @@ func random(h *hist) {
 			case 3:
 				signer, tgt = other, w.addrs[owner].String()
 			case 4:
-				tgt = []string{garbage, w.addrs[other].String(), w.addrs[owner].String()}[g.Intn(3)]
+				tgt = []string{garbage, w.addrs[other].String(), w.addrs[owner].String(), strings.ToUpper(w.addrs[owner].String()), " " + w.addrs[owner].String(), "x"}[g.Intn(6)]
+			case 5:
+				signer, tgt = []int{4, 5, other}[g.Intn(3)], strings.ToUpper(w.addrs[owner].String())
 			}
 			o := op{Kind: settingKinds[g.Intn(len(settingKinds))], Signer: signer}
 			switch o.Kind {
@@ -1437,16 +1556,20 @@ func random(h *hist) {
 			case "remove_custodians", "remove_whitelist":
 				o.Rem = []int{2, 3, 4, 5}[g.Intn(4)]
 			case "add_limits":
-				o.Denom, o.Cap, o.Limit = []string{"ukex", "uusd"}[g.Intn(2)], []int64{0, 100, 100000}[g.Intn(3)], []string{"1h", "90s", "0s", "", "bad"}[g.Intn(5)]
+				o.Denom, o.Cap, o.Limit = []string{"ukex", "uusd", "uabc"}[g.Intn(3)], []int64{0, 100, 100000}[g.Intn(3)], []string{"1h", "90s", "0s", "", "bad", " 1h", "1H", strings.Repeat("9", 300)}[g.Intn(8)]
 			case "remove_limits":
 				o.Denom = []string{"ukex", "uusd"}[g.Intn(2)]
 			}
 			next := ""
-			switch g.Intn(6) {
+			switch g.Intn(8) {
 			case 0:
 				next = w.addrs[g.Intn(N)].String()
 			case 1:
 				next = garbage
+			case 2:
+				next = strings.ToUpper(w.addrs[owner].String())
+			case 3:
+				next = corner(g, w.addrs[owner].String())
 			}
 			h.keyed(o, tgt, g.Chance(60), next)
 		}
@@ -1464,7 +1587,7 @@ func main() {
 
 	app := hx.NewApp()
 	base := hx.Ctx(app, 10, 1700000000)
-	w := &world{app: app, idx: map[string]int{}, tok: map[string]string{}, hashes: map[string]string{}}
+	w := &world{app: app, idx: map[string]int{}, tok: map[string]string{}, hashes: map[string]string{}, codes: map[string]int64{garbage: -2}, htok: map[string]string{}}
 	for i := 0; i < N+2; i++ {
 		a := sdk.AccAddress(fmt.Sprintf("c17_account_%d_______", i))
 		w.addrs = append(w.addrs, a)
